@@ -308,7 +308,12 @@ fn oracle_toks(cands: &BTreeSet<String>) -> String {
 
 fn to_oracle(text: &str) -> String {
     match text.strip_prefix(TO_BASE) {
-        Some(body) => oracle_toks(&candidates(body)),
+        Some(body) => {
+            // the parser drops one trailing '/' before it splits
+            let mut c = candidates(body);
+            c.extend(candidates(body.strip_suffix('/').unwrap_or(body)));
+            oracle_toks(&c)
+        }
         None => "q0".into(),
     }
 }
@@ -581,6 +586,9 @@ fn gen_alias(rng: &mut Rng) -> String {
 }
 
 fn gen_room(rng: &mut Rng) -> String {
+    if rng.chance(1, 40) {
+        return "!".to_owned();
+    }
     loop {
         let s = match rng.below(3) {
             0 => format!("!{}", gen_piece(rng, &[])),
@@ -594,6 +602,9 @@ fn gen_room(rng: &mut Rng) -> String {
 }
 
 fn gen_event(rng: &mut Rng) -> String {
+    if rng.chance(1, 40) {
+        return "$".to_owned();
+    }
     loop {
         let s = if rng.chance(2, 3) {
             format!("${}", gen_piece(rng, &[':']))
